@@ -127,6 +127,38 @@ def common_op(r, name, U, vals, hot=None):
     raise ValueError(name)
 
 
+class Aged:
+    """approximate recency bookkeeping on the generator side: lets a case aim `put`s at keys that were touched
+    `size .. size+ghosts` distinct keys ago, i.e. at keys that are probably ghosts right now"""
+
+    def __init__(self, size, ghosts):
+        self.size, self.ghosts, self.hist = size, max(1, ghosts), []
+
+    def touch(self, k):
+        if k in self.hist:
+            self.hist.remove(k)
+        self.hist.insert(0, k)
+
+    def forget(self, k):
+        if k in self.hist:
+            self.hist.remove(k)
+
+    def note(self, line):
+        t = line.split()
+        if t and t[0] in ("put", "get", "getmut") and len(t) > 1:
+            self.touch(int(t[1]))
+        elif t and t[0] == "remove" and len(t) > 1:
+            self.forget(int(t[1]))
+        elif t and t[0] == "purge":
+            self.hist = []
+
+    def ghostish(self, r):
+        lo, hi = self.size, min(len(self.hist) - 1, self.size + self.ghosts)
+        if hi < lo:
+            return None
+        return self.hist[r.rng(lo, hi)]
+
+
 def profile_table(prof, extra):
     t = [(k, w) for k, w in PROFILES[prof].items() if w > 0]
     t += [(k, w) for k, w in extra.items() if w > 0]
@@ -148,11 +180,13 @@ def variant(r, tier_all=True):
 # ---------------------------------------------------------------------------------------------
 def gen_rawlru(r, cid, nops, opts):
     cap = r.weighted([(1, 3), (2, 4), (3, 4), (4, 2), (r.rng(5, 16), 2)])
+    if opts.get("bigcap") and r.chance(1, 2):
+        cap = r.rng(4, 12)          # enough entries for bucket order to differ from recency order
     cb = 1 if (opts.get("cb") or r.chance(1, 2)) else 0
     U = cap + 1 + r.below(cap + 3)
     vals = Vals()
     prof = r.pick(list(PROFILES))
-    extra = dict(resize=1, getlru=1, getmru=1, getlrumut=1, getmrumut=1, peeklru=1, peekmru=1,
+    extra = dict(resize=opts.get("resize", 1), getlru=1, getmru=1, getlrumut=1, getmrumut=1, peeklru=1, peekmru=1,
                  peeklrumut=1, peekmrumut=1, removelru=2, peekorput=2, peekmutorput=2, containsorput=2,
                  iter=opts.get("iter", 2), clone=opts.get("clone", 1))
     if opts.get("noresize"):
@@ -274,10 +308,15 @@ def gen_twoq(r, cid, nops, opts):
     table = profile_table(prof, extra)
     lines = ["case %d twoq size=%d rr=%s gr=%s %s" % (cid, size, f64bits(rr), f64bits(gr), opts.get("variant") or variant(r))]
     hot = r.rng(1, U)
+    aged = Aged(size, int(size * gr))
     for _ in range(nops):
         name = r.weighted(table)
         if name in PROFILES["put"]:
-            lines.extend(common_op(r, name, U, vals, hot).split("\n"))
+            g = aged.ghostish(r) if (name == "put" and r.chance(1, 3)) else None
+            new = ["put %d %d" % (g, vals.new(g))] if g is not None else common_op(r, name, U, vals, hot).split("\n")
+            for l in new:
+                aged.note(l)
+            lines.extend(new)
         elif name == "listlen":
             lines.append(r.pick(["recentlen", "frequentlen", "ghostlen"]))
         elif name == "iter":
@@ -301,10 +340,15 @@ def gen_arc(r, cid, nops, opts):
     table = profile_table(prof, extra)
     lines = ["case %d arc size=%d %s" % (cid, size, opts.get("variant") or variant(r))]
     hot = r.rng(1, U)
+    aged = Aged(size, size)
     for _ in range(nops):
         name = r.weighted(table)
         if name in PROFILES["put"]:
-            lines.extend(common_op(r, name, U, vals, hot).split("\n"))
+            g = aged.ghostish(r) if (name == "put" and r.chance(1, 3)) else None
+            new = ["put %d %d" % (g, vals.new(g))] if g is not None else common_op(r, name, U, vals, hot).split("\n")
+            for l in new:
+                aged.note(l)
+            lines.extend(new)
         elif name == "listlen":
             lines.append(r.pick(["partition", "recentlen", "frequentlen", "recentevictlen", "frequentevictlen"]))
         elif name == "iter":
